@@ -38,6 +38,15 @@ class DeleteError(FieldError):
     pass
 
 
+def _safe(render, value) -> str:
+    # an error message is built inside `except` handlers: rendering a hostile value
+    # (an object whose __repr__/__str__ raises) must not replace the error being reported
+    try:
+        return render(value)
+    except Exception:  # noqa
+        return f"<{type(value).__name__} object>"
+
+
 class ParseError(TypeError, ValueError):
     def __init__(
         self,
@@ -53,7 +62,7 @@ class ParseError(TypeError, ValueError):
         origin_exc: Exception = None,
     ):
         if not msg and origin_exc:
-            msg = str(origin_exc)
+            msg = _safe(str, origin_exc)
         self.msg = msg
         self.origin_exc = origin_exc
         self.value = value
@@ -70,7 +79,7 @@ class ParseError(TypeError, ValueError):
     def formatted_message(self):
         msg = self.msg
         if self.item:
-            msg = f"parse item: [{repr(self.item)}] failed: {msg}"
+            msg = f"parse item: [{_safe(repr, self.item)}] failed: {msg}"
         if isinstance(self.origin_exc, Exception) and not isinstance(self.origin_exc, ParseError):
             msg = f'{self.origin_exc.__class__.__name__}: {msg}'
         return msg
@@ -109,7 +118,7 @@ class TypeMismatchError(ParseError):
 class InvalidInstance(TypeMismatchError):
     @property
     def formatted_message(self):
-        msg = f"invalid class instance: {self.value} for {self.type}"
+        msg = f"invalid class instance: {_safe(str, self.value)} for {self.type}"
         if self.msg:
             msg += f": {self.msg}"
         return msg
@@ -118,7 +127,7 @@ class InvalidInstance(TypeMismatchError):
 class InvalidSubclass(TypeMismatchError):
     @property
     def formatted_message(self):
-        msg = f"invalid subclass: {self.value} for {self.type}"
+        msg = f"invalid subclass: {_safe(str, self.value)} for {self.type}"
         if self.msg:
             msg += f": {self.msg}"
         return msg
@@ -169,7 +178,7 @@ class ExceedError(ParseError):
 
     @property
     def formatted_message(self):
-        msg = f"parse item: [{repr(self.item)}] exceeded"
+        msg = f"parse item: [{_safe(repr, self.item)}] exceeded"
         if self.msg:
             msg += f": {self.msg}"
         return msg
@@ -250,7 +259,7 @@ class ParamsLackError(ParseError):
 class AbsenceError(ParseError):
     @property
     def formatted_message(self):
-        msg = f"required item: {repr(self.item)} is absence"
+        msg = f"required item: {_safe(repr, self.item)} is absence"
         if self.msg:
             msg += f": {self.msg}"
         return msg
